@@ -909,7 +909,8 @@ def atoms(rng, hashable, intonly=False):
         return rng.choice([1000 + i, f"k{i}", float(i) + 0.5, complex(i, 1), f"é{i}".encode("utf-8"), M.Keyword(f"k{i}"),
                            2 ** 65 + i, -i - 2, (float("inf") if i % 97 == 0 else 3000 + i)])
     pool = [None, True, False, 0, 1, -7, 2 ** 65, 1.5, -0.0, float("inf"), float("-inf"), float("nan"), 1e300, 3 - 2j,
-            complex(0, float("inf")), "", "a", "q\"uo'te\\\n\t\x00", "é\u2603", b"", b"by\"\\\xff", M.Keyword("kw"),
+            complex(0, float("inf")), -2j, complex(0.0, -3.5), complex(-0.0, 1.0), complex(-0.0, -0.0), complex(0.0, -0.0),
+            complex(-1.5, -0.0), -1, -2.5, "", "a", "q\"uo'te\\\n\t\x00", "é\u2603", b"", b"by\"\\\xff", M.Keyword("kw"),
             M.Keyword("")]
     return rng.choice(pool)
 
@@ -1173,6 +1174,23 @@ def main_c27(run):
                 else:
                     run.cov["traces_validated_against_impl"] += 1
     run.cov["text_atoms"] = ntext
+    # numbers: every combination of signed zeros, ordinary and special parts of floats and complex numbers
+    parts = [0.0, -0.0, 1.5, -1.5, float("inf"), float("-inf"), float("nan"), 1e300, -1e-300, 3.0, -3.0]
+    nums = list(parts) + [complex(a, b) for a in parts for b in parts] + [0, -1, 7, -(2 ** 70), 2 ** 70, True, False]
+    for x0 in nums:
+        for x in (x0, [x0], {"k": x0}, (x0, x0)):
+            run.case(("number", repr(x)))
+            try:
+                t = hy.repr(x)
+                y = hy.eval(hy.read(t), dict(env))
+            except Exception as e:
+                run.violation("number:" + repr(x), f"hy.repr({x!r}) does not read or evaluate: {type(e).__name__}: {e}", {"value": repr(x)})
+                continue
+            if not val_equal(x, y):
+                run.violation("number:" + repr(x), f"hy.repr({x!r}) = {t!r} evaluates to {y!r}", {"value": repr(x), "text": t})
+            else:
+                run.cov["traces_validated_against_impl"] += 1
+    run.cov["number_atoms"] = len(nums)
     run.sample({"shape": shapes[3], "form": forms[4]})
     run.sample({"value": repr(fill(shapes[3], rng)), "printed": hy.repr(fill(shapes[3], rng))})
     return run.finish("model_checking",
